@@ -65,7 +65,17 @@ Definition check_case (c : case) : Z :=
             let low := List.map lower_c addr in
             match spec_data (List.map lower_c hrp) low with
             | Some d => beq_bytes (List.map lower_c hrp) hrp && legal v (List.length prog) &&
-                        (spec_polymod (spec_hrp_expand hrp ++ d) =? const_for v)
+                        (spec_polymod (spec_hrp_expand hrp ++ d) =? const_for v) &&
+                        (* canonical conversion: the 5-bit groups between version and checksum are the program
+                           bytes followed by fewer than five zero padding bits, nothing more *)
+                        (match d with
+                         | d0 :: rest =>
+                             let groups := firstn (List.length rest - 6) rest in
+                             let pad := 5 * Z.of_nat (List.length groups) - 8 * Z.of_nat (List.length prog) in
+                             (d0 =? v) && (0 <=? pad) && (pad <? 5) &&
+                             (fold_left (fun a g => a * 32 + g) groups 0 =? fold_left (fun a b => a * 256 + b) prog 0 * 2 ^ pad)
+                         | [] => false
+                         end)
             | None => false
             end
         end in
